@@ -99,6 +99,9 @@ def run(ctx):
         L.coqchk_props(ctx, "C08")
     bad = C.hygiene()
     ctx.obligation("hygiene: no Admitted/Axiom/Parameter/... in coq/", not bad, "; ".join(bad))
+    # tie 1 (translator): path_string, _val_to_num, _strip_path_tail, the directory naming of partition_on_columns regenerated from
+    # the working tree; the int/bool text round trip, the integer guess and "file of a key = rel_path of the model" re-proved on it
+    ctx.gen_paths = L.paths_translator(ctx)
     C.use_shadow()
     pq = C.Pqref()
     try:
@@ -219,6 +222,7 @@ def _run(ctx, pq):
 
     # ---------------------------------------------------------------- D: _path_to_cats / paths_to_cats
     n_d = 200 if quick else 2000
+    d_paths = []
     for i in range(n_d):
         shape = rng.choice(["hive", "hive", "drill", "drill", "mixed", "malformed"])
         depth = rng.choice([1, 1, 2, 3])
@@ -283,6 +287,7 @@ def _run(ctx, pq):
         paths = [d + "/part.%d.parquet" % rng.randrange(3) for d in dirs]
         if rng.random() < 0.1:
             paths.append("part.9.parquet")
+        d_paths.extend(paths)
         impl_dirs = list(api._strip_path_tail(paths))
         mdirs = [bytes(b).decode() for b in pq.call("strip_tail", [L.enc(p) for p in paths])]
         ctx.correspondence("strip_tail ~ api._strip_path_tail", {"paths": paths}, sorted(set(mdirs)), sorted(impl_dirs))
@@ -302,6 +307,9 @@ def _run(ctx, pq):
         ctx.case(case)
         ctx.correspondence("paths_to_cats ~ api.paths_to_cats", case, model, impl)
 
+    if getattr(ctx, "gen_paths", False):       # the regenerated text itself, evaluated by the kernel, against the real function
+        ok_paths = sorted({p for p in d_paths if L.coq_ascii_ok(p)})
+        L.gen_paths_samples(ctx, [], rng.sample(ok_paths, min(40, len(ok_paths))) + ["", "part.0.parquet", "/x", "a/"])
     # ---------------------------------------------------------------- E: whole datasets
     n_e = 160 if quick else 1500
     cases = L.load_corpus("C08") + [gen_frame_case(rng, i < (14 if quick else 56), i) for i in range(n_e)]   # corpus, confirmation/regression streams, random
@@ -725,7 +733,7 @@ def check_dataset(case, root, pq, ctx=None, verbose=False):
                             g2, t2 = got_cells[c2], texts[rid][j2]
                             gm2 = L.from_model(pq.call("val_to_num", L.enc(t2), [L.oracle_entry(t2)]))
                             okc = okc and (g2 == ["s", t2] or g2 == gm2 or g2 == by_id[rid][c2] or
-                                           (g2[0] in "bif" and gm2[0] in "bif" and float(_num(g2)) == float(_num(gm2))))
+                                           (g2[0] in "bif" and gm2[0] in "bif" and _num_eq(g2, gm2)))
                         if okc:
                             continue
                     if got_cells != by_id.get(rid):
@@ -768,7 +776,7 @@ def check_dataset(case, root, pq, ctx=None, verbose=False):
                 else:
                     gm = L.from_model(pq.call("val_to_num", L.enc(texts[rid][j]), [L.oracle_entry(texts[rid][j])]))
                     ok = g == want or g == ["s", texts[rid][j]] or g == gm or \
-                        (g[0] in "bif" and gm[0] in "bif" and float(_num(g)) == float(_num(gm)))
+                        (g[0] in "bif" and gm[0] in "bif" and _num_eq(g, gm))
                     if not ok:
                         problems.append("row %d level %d: read %r, key text %r (written %r)" % (rid, j, g, texts[rid][j], want))
                         cls_extra["mismatch"] = "value"
@@ -924,7 +932,7 @@ def gen_handle_case(rng, i):
 
 def _drill_cell_ok(pq, g, t, want=None):
     gm = L.from_model(pq.call("val_to_num", L.enc(t), [L.oracle_entry(t)]))
-    return g == want or g == ["s", t] or g == gm or (g[0] in "bif" and gm[0] in "bif" and float(_num(g)) == float(_num(gm)))
+    return g == want or g == ["s", t] or g == gm or (g[0] in "bif" and gm[0] in "bif" and _num_eq(g, gm))
 
 
 def check_handle_prog(case, root, pq, ctx=None, verbose=False):
@@ -1117,6 +1125,11 @@ def check_handle_prog(case, root, pq, ctx=None, verbose=False):
 
 def _num(c):
     return {"b": int, "i": int, "f": float}[c[0]](c[1])
+
+
+def _num_eq(a, b):
+    """numerically equal EXACTLY (Python compares int with float without rounding): 2**63 - 1 is not 9.223372036854775808e18"""
+    return _num(a) == _num(b)
 
 
 def _replayable(case):
